@@ -31,6 +31,8 @@ func runC09(r *engine.Run) {
 	r.Rule("ERR-dropped", "the error result of every repository operation (trie, node store, storage adapter/batcher methods) called here is looked at - compared, returned or stored; deliberate drops are an explicit table with reasons")
 	r.Rule("DEP-linkback", "the node returned by every self-recursive call of insert and delete is stored into the parent (a child slot or the shared-prefix node's value) or returned: a rebuilt subtree is never dropped while the weights above it change")
 	r.Rule("AGREE-update", "an update in place of an existing value node stores both hashed fields (value bytes and weight) from the payload; the shortcut that skips the update (zero change, same node) is taken only where the bytes tested equal AND the weights tested equal")
+	r.Rule("DOM-memo", "each CalcHash returns the cached hash without recomputing only where the dirty flag tested false, and stores the recomputed hash (the RawHash result) into the hash field")
+	r.Rule("AGREE-endian", "every fixed-width read and write of the weighted trie (hash pre-images, serialised weights, decoders) uses one byte order")
 	r.NotDec = append(r.NotDec, "the numeric equalities themselves (total weight = sum of live weights, block ownership, root = independent computation)")
 	exhW(r, "EXH-W", []string{"insert", "delete", "getBlockProof", "markToCollect"})
 	depWeight(r)
@@ -47,6 +49,8 @@ func runC09(r *engine.Run) {
 	errGuard(r, "ERR-guard", "ERR-dropped", wf, 20)
 	depLinkBack(r, "DEP-linkback")
 	agreeUpdate(r, "AGREE-update")
+	domMemo(r, "DOM-memo")
+	agreeEndian(r, "AGREE-endian")
 	domNoChange(r, "AGREE-update")
 	if n := domSentinel(r, "DOM-sentinel", wf); n < 1 {
 		r.Anchor("DOM-sentinel", fmt.Errorf("unresolved anchor: no single-slot scan with sentinels found in the weighted trie (delete's reduction step is expected to be one)"))
